@@ -9,7 +9,7 @@ From Pq Require Import Format.Nested Impl.CAssemble Impl.CAssembleFixed Proofs.N
   Proofs.CAssemblePagesProofs Proofs.NestedMapProofs Proofs.NestedInvProofs
   Proofs.CAssembleTightProofs Proofs.CAssembleFixedProofs Proofs.CAssembleV2Proofs
   Proofs.NestedStructProofs Proofs.CAssemblePyProofs
-  Proofs.PyDictProofs Proofs.NestedPageProofs Proofs.HybridProofs Proofs.CAssembleEmptyProofs Codec.Hybrid Base.Bytes.
+  Proofs.PyDictProofs Proofs.NestedPageProofs Proofs.HybridProofs Proofs.CAssembleEmptyProofs Impl.CShapes Proofs.CAssembleShapes Codec.Hybrid Base.Bytes.
 Import ListNotations.
 Open Scope N_scope.
 
@@ -331,3 +331,27 @@ Theorem C15_pages_full_with_empty :
     run_v1_py sh (length rows) pages = AOk rows.
 Proof. exact pages_v1_full_with_empty. Qed.
 Print Assumptions C15_pages_full_with_empty.
+
+(* ---- wave 3: shapes the one-level assembly does not represent -------------------------------------------------------------
+   (a) LIST / MAP below a REPEATED group: two repetition levels, but the loop only asks rep == 0 - two different records
+       (one list [7, 8] / two lists [7], [8] in one row) give the same cell.  The reader REFUSES such columns (model `refuses` of the
+       NotImplementedError in core._nested_levels; real refusal checked in the refusal stage). *)
+Theorem C15_two_rep_levels_merged_refuted :
+  exists (sh : shape) (es1 es2 : list entry) (vs : list N) (r : list (row N)),
+    es1 <> es2 /\ map snd es1 = map snd es2 /\
+    run_v1_py sh 1 [(es1, vs)] = AOk r /\ run_v1_py sh 1 [(es2, vs)] = AOk r /\
+    refuses [REPEATED; OPTIONAL; REPEATED; OPTIONAL] = true /\
+    refuses [OPTIONAL; REPEATED; OPTIONAL] = false.
+Proof. exact two_rep_levels_merged_refuted. Qed.
+Print Assumptions C15_two_rep_levels_merged_refuted.
+
+(* (b) two-level legacy lists: legal (LogicalTypes.md backward-compatibility rules), same level streams as the three-level shape with a
+       required element, but never list-like for the reader: every row of the exposed column is None.  OPEN FINDING C15-two-level-list-all-none *)
+Theorem C15_two_level_list_refuted :
+  exists (rows : list (row N)),
+    wf_rows (mkShape true false) rows = true /\
+    assemble_spec (mkShape true false) (fst (shred (mkShape true false) rows)) (snd (shred (mkShape true false) rows)) = Some rows /\
+    (forall a n1 n2 mid leaf, is_list_like 2 a n1 n2 mid leaf = false) /\
+    column_cells false rows (length rows) <> map Some rows.
+Proof. exact two_level_list_refuted. Qed.
+Print Assumptions C15_two_level_list_refuted.
